@@ -7,8 +7,8 @@
    StoreChunk / GetChunk call fail.  All theorems quantify over every schedule (list btid), every
    worker count, every fault oracle, every job list (duplicates included). *)
 From Coq Require Import List NArith Arith Bool.
-From DS Require Import Base.Bytes Base.Hash Base.Sched Model.Pool Model.BulkWrite Model.MakeCancel
-     Proofs.BulkWriteProofs Proofs.MakeCancelProofs.
+From DS Require Import Base.Bytes Base.Hash Base.Sched Model.Pool Model.BulkWrite Model.MakeCancel Model.CtxBound
+     Proofs.BulkWriteProofs Proofs.MakeCancelProofs Proofs.CtxBoundProofs.
 Import ListNotations.
 
 (* At every point of every schedule: an id in ChunkStorage.processed is present in the target
@@ -48,6 +48,17 @@ Theorem C06_cancel_complete : forall H mode jobs src fault store0 nw sched,
     exists b, lookup (b_store s) (jid H mode jobs k) = Some b /\ H b = jid H mode jobs k.
 Proof. exact bulk_cancel_complete. Qed.
 Print Assumptions C06_cancel_complete.
+
+(* ... and with context-bound stores (Model/CtxBound.v: a request in flight when the context is cancelled, and
+   every later one, fails): success still means complete. *)
+Theorem C06_ctxbound_complete : forall H mode jobs src fault can_cancel store0 nw sched,
+  store_ok H store0 -> (mode = MCopy -> src_ok H src) ->
+  let s := run (cb_step H mode jobs src fault can_cancel) sched (binit store0 nw) in
+  bfinal s = true -> bulk_result s = RNil ->
+  forall k, k < njobs jobs ->
+    exists b, lookup (b_store s) (jid H mode jobs k) = Some b /\ H b = jid H mode jobs k.
+Proof. exact cb_complete. Qed.
+Print Assumptions C06_ctxbound_complete.
 
 (* IndexFromFile (make) under cancellation, on the abstraction of Model/MakeCancel.v ([stop_at i] = the
    chunks worker i emits when it is not interrupted, C02's subject): nil => every bucket that went into
